@@ -1,5 +1,5 @@
 (* Invariants of the connection-ID bookkeeping model (model/Cid.v) over ALL op sequences. *)
-From Coq Require Import ZArith List Bool Lia ZifyBool.
+From Coq Require Import ZArith List Bool Lia ZifyBool Sorted.
 From AQ Require Import lib.Base gen.C18Consts model.Cid.
 
 (* ---------------------------------------------------------------- small list facts *)
@@ -134,6 +134,152 @@ Proof.
   - intros [h [E H]]. exists h. split; [assumption|lia].
 Qed.
 
+(* ---------------------------------------------------------------- the budgeted write loops of send *)
+Definition wn_hosts (hs : list hcid) (b : Z) : list hcid := fst (fst (write_news hs b)).
+Definition wn_news (hs : list hcid) (b : Z) : list Z := snd (fst (write_news hs b)).
+Definition wn_left (hs : list hcid) (b : Z) : option Z := snd (write_news hs b).
+
+Lemma write_rets_split pd : forall b, pd = fst (write_rets pd b) ++ snd (write_rets pd b).
+Proof.
+  induction pd as [|q t IH]; intros b; cbn [write_rets]; [reflexivity|].
+  destruct (b <=? 0); [reflexivity|].
+  specialize (IH (b - 1)). destruct (write_rets t (b - 1)) as [w r]. cbn [fst snd app] in *. now rewrite <- IH.
+Qed.
+
+Lemma write_rets_len pd : forall b, Zlen (fst (write_rets pd b)) = Z.min (Z.max 0 b) (Zlen pd).
+Proof.
+  induction pd as [|q t IH]; intros b; cbn [write_rets].
+  - cbn [fst]. change (Zlen (@nil Z)) with 0. lia.
+  - destruct (b <=? 0) eqn:E.
+    + cbn [fst]. change (Zlen (@nil Z)) with 0. pose proof (zlen_nonneg (q :: t)). lia.
+    + specialize (IH (b - 1)). destruct (write_rets t (b - 1)) as [w r]. cbn [fst] in *.
+      rewrite !zlen_cons, IH. pose proof (zlen_nonneg t). lia.
+Qed.
+
+Lemma write_rets_head q t b : 0 < b -> exists w, fst (write_rets (q :: t) b) = q :: w.
+Proof.
+  intros H. cbn [write_rets]. replace (b <=? 0) with false by lia.
+  destruct (write_rets t (b - 1)) as [w r]. exists w. reflexivity.
+Qed.
+
+Lemma wn_seqs hs : forall b, hseqs (wn_hosts hs b) = hseqs hs.
+Proof.
+  unfold wn_hosts, hseqs. induction hs as [|h t IH]; intros b; cbn [write_news]; [reflexivity|].
+  destruct (h_sent h).
+  - specialize (IH b). destruct (write_news t b) as [[t' w] r]. cbn [fst map] in *. now rewrite IH.
+  - destruct (b <=? 0); [reflexivity|].
+    specialize (IH (b - 1)). destruct (write_news t (b - 1)) as [[t' w] r]. cbn [fst map h_seq] in *. now rewrite IH.
+Qed.
+
+Lemma wn_len hs b : Zlen (wn_hosts hs b) = Zlen hs.
+Proof.
+  rewrite <- (zlen_map h_seq (wn_hosts hs b)), <- (zlen_map h_seq hs).
+  change (Zlen (hseqs (wn_hosts hs b)) = Zlen (hseqs hs)). now rewrite wn_seqs.
+Qed.
+
+(* what is owed = what was written ++ what is still owed, in order *)
+Lemma wn_unsent_split hs : forall b, unsent hs = wn_news hs b ++ unsent (wn_hosts hs b).
+Proof.
+  unfold wn_hosts, wn_news, unsent. induction hs as [|h t IH]; intros b; cbn [write_news]; [reflexivity|].
+  destruct (h_sent h) eqn:Es.
+  - specialize (IH b). destruct (write_news t b) as [[t' w] r]. cbn [fst snd filter] in *. rewrite Es. cbn [negb]. exact IH.
+  - destruct (b <=? 0); [reflexivity|].
+    specialize (IH (b - 1)). destruct (write_news t (b - 1)) as [[t' w] r]. cbn [fst snd filter h_sent negb] in *.
+    rewrite Es. cbn [negb map app]. now rewrite IH.
+Qed.
+
+Lemma wn_left_spec hs : forall b,
+  match wn_left hs b with
+  | None => unsent (wn_hosts hs b) <> [] /\ Zlen (wn_news hs b) = Z.max 0 b
+  | Some b' => unsent (wn_hosts hs b) = [] /\ b' = b - Zlen (wn_news hs b)
+  end.
+Proof.
+  unfold wn_hosts, wn_news, wn_left, unsent. induction hs as [|h t IH]; intros b; cbn [write_news].
+  - cbn. change (Zlen (@nil Z)) with 0. split; [reflexivity|lia].
+  - destruct (h_sent h) eqn:Es.
+    + specialize (IH b). destruct (write_news t b) as [[t' w] r]. cbn [fst snd filter] in *. rewrite Es. cbn [negb]. exact IH.
+    + destruct (b <=? 0) eqn:Eb.
+      * cbn [fst snd filter]. rewrite Es. cbn [negb map]. change (Zlen (@nil Z)) with 0. split; [discriminate|lia].
+      * specialize (IH (b - 1)). destruct (write_news t (b - 1)) as [[t' w] r]. cbn [fst snd filter h_sent negb] in *.
+        rewrite zlen_cons. destruct r; destruct IH as [A B]; (split; [exact A|lia]).
+Qed.
+
+Lemma wn_in hs : forall b h', In h' (wn_hosts hs b) ->
+  In h' hs \/ (h_sent h' = true /\ In (h_seq h') (wn_news hs b)).
+Proof.
+  unfold wn_hosts, wn_news. induction hs as [|h t IH]; intros b h'; cbn [write_news]; [cbn; tauto|].
+  destruct (h_sent h) eqn:Es.
+  - specialize (IH b h'). destruct (write_news t b) as [[t' w] r]. cbn [fst snd In] in *. intros [E|H]; [tauto|].
+    destruct (IH H); tauto.
+  - destruct (b <=? 0); [cbn [fst snd]; tauto|].
+    specialize (IH (b - 1) h'). destruct (write_news t (b - 1)) as [[t' w] r]. cbn [fst snd In] in *. intros [E|H].
+    + subst h'. cbn. right. split; [reflexivity|now left].
+    + destruct (IH H) as [A|[A B]]; [tauto|]. right. split; [assumption|now right].
+Qed.
+
+Lemma wn_news_in hs : forall b q, In q (wn_news hs b) -> exists h, In h hs /\ h_seq h = q /\ h_sent h = false.
+Proof.
+  unfold wn_news. induction hs as [|h t IH]; intros b q; cbn [write_news]; [cbn; tauto|].
+  destruct (h_sent h) eqn:Es.
+  - specialize (IH b q). destruct (write_news t b) as [[t' w] r]. cbn [fst snd] in *. intros H.
+    destruct (IH H) as [h0 [A B]]. exists h0. split; [now right|assumption].
+  - destruct (b <=? 0); [cbn; tauto|].
+    specialize (IH (b - 1) q). destruct (write_news t (b - 1)) as [[t' w] r]. cbn [fst snd In] in *. intros [E|H].
+    + exists h. split; [now left|split; assumption].
+    + destruct (IH H) as [h0 [A B]]. exists h0. split; [now right|assumption].
+Qed.
+
+(* _host_cids is in increasing sequence-number order, so an ID the builder refused lies above every ID written *)
+Lemma wn_above hs : forall b h', StronglySorted Z.lt (hseqs hs) -> In h' (wn_hosts hs b) -> h_sent h' = false ->
+  Forall (fun q => q < h_seq h') (wn_news hs b).
+Proof.
+  induction hs as [|h t IH]; intros b h' S; [unfold wn_news; cbn; constructor|].
+  unfold hseqs in S. cbn [map] in S. apply StronglySorted_inv in S. destruct S as [S F].
+  pose proof (wn_seqs t) as Q.
+  unfold wn_hosts, wn_news in *. cbn [write_news].
+  destruct (h_sent h) eqn:Es.
+  - specialize (IH b h' S). destruct (write_news t b) as [[t' w] r]. cbn [fst snd In] in *.
+    intros [E|H] Hs; [congruence|now apply IH].
+  - destruct (b <=? 0); [cbn [fst snd]; constructor|].
+    specialize (IH (b - 1) h' S). specialize (Q (b - 1)).
+    destruct (write_news t (b - 1)) as [[t' w] r]. cbn [fst snd In] in *.
+    intros [E|H] Hs; [subst h'; discriminate|]. constructor; [|now apply IH].
+    rewrite Forall_forall in F. apply F. fold (hseqs t). rewrite <- Q. unfold hseqs. now apply in_map.
+Qed.
+
+Lemma wn_news_len hs : forall b, Zlen (wn_news hs b) <= Z.max 0 b.
+Proof.
+  unfold wn_news. induction hs as [|h t IH]; intros b; cbn [write_news]; [cbn; change (Zlen (@nil Z)) with 0; lia|].
+  destruct (h_sent h).
+  - specialize (IH b). destruct (write_news t b) as [[t' w] r]. exact IH.
+  - destruct (b <=? 0) eqn:Eb; [cbn; change (Zlen (@nil Z)) with 0; lia|].
+    specialize (IH (b - 1)). destruct (write_news t (b - 1)) as [[t' w] r]. cbn [fst snd] in *. rewrite zlen_cons. lia.
+Qed.
+
+Lemma zlen_zero_nil {A} (l : list A) : Zlen l = 0 -> l = [].
+Proof. destruct l; [reflexivity|]. rewrite zlen_cons. pose proof (zlen_nonneg l). lia. Qed.
+
+(* a budget that covers every owed NEW_CONNECTION_ID: all of them are written, the builder has not stopped *)
+Lemma wn_enough hs b : Zlen (unsent hs) <= b ->
+  wn_left hs b = Some (b - Zlen (unsent hs)) /\ wn_news hs b = unsent hs /\ unsent (wn_hosts hs b) = [].
+Proof.
+  intros H. pose proof (wn_left_spec hs b) as L. pose proof (wn_unsent_split hs b) as Sp.
+  destruct (wn_left hs b) as [b'|].
+  - destruct L as [A B]. rewrite A, app_nil_r in Sp. subst b'. rewrite <- Sp. repeat split; assumption.
+  - destruct L as [A B]. exfalso. apply (f_equal Zlen) in Sp. rewrite zlen_app in Sp.
+    assert (1 <= Zlen (unsent (wn_hosts hs b))).
+    { destruct (unsent (wn_hosts hs b)); [congruence|]. rewrite zlen_cons. pose proof (zlen_nonneg l). lia. }
+    lia.
+Qed.
+
+Lemma fold_max_cases l : forall m x, x <= fold_left Z.max l m -> x <= m \/ exists y, In y l /\ x <= y.
+Proof.
+  induction l as [|a l IH]; intros m x H; cbn [fold_left] in H; [now left|].
+  destruct (IH _ _ H) as [A|[y [A B]]].
+  - destruct (Z.max_spec m a) as [[_ E]|[_ E]]; rewrite E in A; [right; exists a; split; [now left|assumption]|now left].
+  - right. exists y. split; [now right|assumption].
+Qed.
+
 (* host-side invariant *)
 Lemma del_host_In q hs h : In h (del_host q hs) -> In h hs.
 Proof.
@@ -164,6 +310,34 @@ Proof.
   induction l as [|a l IH]; intros m Hm F; cbn [fold_left]; [assumption|]. inversion F; subst. apply IH; [lia|assumption].
 Qed.
 
+(* _host_cids stays in increasing sequence-number order *)
+Lemma ssorted_snoc l a : StronglySorted Z.lt l -> Forall (fun q => q < a) l -> StronglySorted Z.lt (l ++ [a]).
+Proof.
+  induction l as [|b l IH]; cbn [app]; intros S F; [constructor; constructor|].
+  apply StronglySorted_inv in S. destruct S as [S Fb]. inversion F; subst.
+  constructor; [now apply IH|]. apply Forall_app. split; [assumption|repeat constructor; lia].
+Qed.
+
+Lemma replenish_loop_sorted fuel : forall hs next target,
+  hgood hs next -> StronglySorted Z.lt (hseqs hs) ->
+  StronglySorted Z.lt (hseqs (fst (replenish_loop fuel hs next target))).
+Proof.
+  induction fuel as [|f IH]; intros hs next target G S; cbn [replenish_loop]; [exact S|].
+  destruct (Zlen hs <? target); [|exact S]. apply IH; [now apply hgood_snoc|].
+  unfold hseqs. rewrite map_app. cbn [map h_seq]. apply ssorted_snoc; [exact S|]. destruct G as [_ B]. exact B.
+Qed.
+
+Lemma ssorted_del q hs : StronglySorted Z.lt (hseqs hs) -> StronglySorted Z.lt (hseqs (del_host q hs)).
+Proof.
+  induction hs as [|h t IH]; cbn [del_host]; [trivial|]. intros S.
+  change (hseqs (h :: t)) with (h_seq h :: hseqs t) in S. apply StronglySorted_inv in S. destruct S as [S F].
+  destruct (h_seq h =? q); [assumption|]. change (hseqs (h :: del_host q t)) with (h_seq h :: hseqs (del_host q t)).
+  constructor; [now apply IH|]. rewrite Forall_forall in *. intros x Hx. apply F. now apply (hseqs_del_incl q).
+Qed.
+
+Lemma hseqs_map f hs : (forall h, h_seq (f h) = h_seq h) -> hseqs (map f hs) = hseqs hs.
+Proof. intros Hf. unfold hseqs. rewrite map_map. apply map_ext. intros; now rewrite Hf. Qed.
+
 (* host-side invariant *)
 Record HInv (l : Z) (s : st) : Prop := {
   hi_limit : rlimit s = l;
@@ -171,22 +345,25 @@ Record HInv (l : Z) (s : st) : Prop := {
   hi_good : hgood (hosts s) (hseq s);
   hi_mark : hsent s < hseq s;
   hi_issued : forall h, In h (hosts s) -> h_sent h = true \/ h_seq h <= hsent s -> In (h_seq h) (issued s);
-  hi_retired : forall q, In q (retiredev s) -> In q (issued s)
+  hi_retired : forall q, In q (retiredev s) -> In q (issued s);
+  hi_sorted : StronglySorted Z.lt (hseqs (hosts s))
 }.
 
 Lemma replenish_HInv l s : 1 <= l -> rlimit s = l -> Zlen (hosts s) <= Z.min REPLENISH_CAP l ->
   hgood (hosts s) (hseq s) -> hsent s < hseq s ->
   (forall h, In h (hosts s) -> h_sent h = true \/ h_seq h <= hsent s -> In (h_seq h) (issued s)) ->
   (forall q, In q (retiredev s) -> In q (issued s)) ->
+  StronglySorted Z.lt (hseqs (hosts s)) ->
   HInv l (replenish s).
 Proof.
-  intros Hl Hr Hc Hg Hm Hi Hrt. unfold replenish. rewrite Hr.
+  intros Hl Hr Hc Hg Hm Hi Hrt Hso. unfold replenish. rewrite Hr.
+  pose proof (replenish_loop_sorted (Z.to_nat (Z.min REPLENISH_CAP l)) (hosts s) (hseq s) (Z.min REPLENISH_CAP l) Hg Hso) as So.
   pose proof (replenish_loop_len (Z.to_nat (Z.min REPLENISH_CAP l)) (hosts s) (hseq s) (Z.min REPLENISH_CAP l)) as L.
   pose proof (replenish_loop_good (Z.to_nat (Z.min REPLENISH_CAP l)) (hosts s) (hseq s) (Z.min REPLENISH_CAP l) Hg) as G.
   pose proof (replenish_loop_hosts (Z.to_nat (Z.min REPLENISH_CAP l)) (hosts s) (hseq s) (Z.min REPLENISH_CAP l)) as Hh.
   pose proof (replenish_loop_next (Z.to_nat (Z.min REPLENISH_CAP l)) (hosts s) (hseq s) (Z.min REPLENISH_CAP l)) as Hn.
   destruct (replenish_loop _ _ _ _) as [hs next]. cbn [fst snd] in *.
-  constructor; cbn; try assumption.
+  constructor; cbn [hosts hseq hsent rlimit issued retiredev set_host]; try assumption.
   - apply L; [assumption|]. pose proof (zlen_nonneg (hosts s)). unfold REPLENISH_CAP in *. lia.
   - lia.
   - intros h Hin Hs. destruct (Hh h Hin) as [H|[H1 H2]]; [now apply Hi|]. destruct Hs as [Hs|Hs]; [congruence|lia].
@@ -205,6 +382,7 @@ Proof.
   all: try (change (Zlen [mkH 0 true]) with 1; unfold REPLENISH_CAP; lia).
   all: try (unfold hgood, hseqs; cbn; split; [constructor; [tauto|constructor]|repeat constructor; lia]).
   all: try (intros h [E|[]] _; subst h; cbn; now left).
+  all: try (solve [unfold hseqs; cbn; repeat constructor]).
 Qed.
 
 Lemma change_cid_host s : hosts (change_cid s) = hosts s /\ hseq (change_cid s) = hseq s /\ rlimit (change_cid s) = rlimit s
@@ -213,7 +391,7 @@ Proof. unfold change_cid. destruct (avail s); cbn; repeat split. Qed.
 
 Lemma HInv_same l s s' : HInv l s -> hosts s' = hosts s -> hseq s' = hseq s -> rlimit s' = rlimit s ->
   hsent s' = hsent s -> issued s' = issued s -> retiredev s' = retiredev s -> HInv l s'.
-Proof. intros [A B C D E F] H1 H2 H3 H4 H5 H6. constructor; rewrite ?H1, ?H2, ?H3, ?H4, ?H5, ?H6; assumption. Qed.
+Proof. intros [A B C D E F G] H1 H2 H3 H4 H5 H6. constructor; rewrite ?H1, ?H2, ?H3, ?H4, ?H5, ?H6; assumption. Qed.
 
 Lemma never_sent_false q hs mark h : never_sent q hs mark = false -> In h hs -> h_seq h = q ->
   h_sent h = true \/ h_seq h <= mark.
@@ -225,9 +403,35 @@ Proof.
   congruence.
 Qed.
 
+Lemma send_HInv l s b : HInv l s -> HInv l (snd (send s b)).
+Proof.
+  intros [H1 H2 H3 H4 H5 H6 H7]. unfold send.
+  pose proof (wn_seqs (hosts s) b) as Q. pose proof (wn_len (hosts s) b) as Ln.
+  pose proof (wn_in (hosts s) b) as Hin. pose proof (wn_news_in (hosts s) b) as Hnw.
+  pose proof (wn_above (hosts s) b) as Hab.
+  unfold wn_hosts, wn_news in *. destruct (write_news (hosts s) b) as [[hs' news] rest]. cbn [fst snd] in *.
+  assert (Fn : Forall (fun x => x < hseq s) news).
+  { apply Forall_forall. intros x Hx. destruct (Hnw x Hx) as [h [A [B _]]]. destruct H3 as [_ F].
+    rewrite Forall_forall in F. apply F. subst x. unfold hseqs. now apply in_map. }
+  assert (HI : HInv l (set_host s hs' (hseq s) (fold_left Z.max news (hsent s)) (issued s ++ news) (retiredev s))).
+  { constructor; cbn [hosts hseq hsent rlimit issued retiredev set_host]; try assumption.
+    - lia.
+    - unfold hgood. rewrite Q. exact H3.
+    - now apply fold_max_lt.
+    - intros h Hh Hs. apply in_or_app. destruct (Hin h Hh) as [A|[_ A]]; [|now right].
+      destruct (h_sent h) eqn:Es; [left; apply H5; auto|].
+      destruct Hs as [Hs|Hs]; [discriminate|].
+      destruct (fold_max_cases _ _ _ Hs) as [B|[y [B C]]]; [left; apply H5; auto|].
+      specialize (Hab h H7 Hh Es). rewrite Forall_forall in Hab. apply Hab in B. lia.
+    - intros q Hq. apply in_or_app. left. now apply H6.
+    - rewrite Q. exact H7. }
+  destruct rest as [b'|]; [|exact HI]. destruct (write_rets (pend s) b') as [rets pend']. cbn [snd].
+  eapply HInv_same; [exact HI| | | | | |]; reflexivity.
+Qed.
+
 Lemma step_HInv l s o : 1 <= l -> HInv l s -> legit s o -> HInv l (snd (step s o)).
 Proof.
-  intros Hl I Lg. pose proof I as [H1 H2 H3 H4 H5 H6]. destruct o; cbn [step legit] in *; try tauto.
+  intros Hl I Lg. pose proof I as [H1 H2 H3 H4 H5 H6 H7]. destruct o; cbn [step legit] in *; try tauto.
   - (* RecvPacket *) unfold recv_packet. destruct (closed s); cbn [snd]; [assumption|].
     destruct (is_client s && negb (has_host d (hosts s))); cbn [snd]; eapply HInv_same; try exact I; reflexivity.
   - (* RecvNewCid *) unfold recv_newcid.
@@ -246,29 +450,20 @@ Proof.
       apply in_app_or in Hq. destruct Hq as [Hq|[Hq|[]]]; [now apply H6|]. subst q0.
       apply has_host_In in E. unfold hseqs in E. apply in_map_iff in E. destruct E as [h [Eh Hin]].
       rewrite <- Eh. apply H5; [assumption|]. eapply never_sent_false; eassumption.
+    + now apply ssorted_del.
   - (* PacketDone *) unfold packet_done. destruct (closed s); [cbn [snd]; eapply HInv_same; try exact I; reflexivity|].
     destruct (pkt s); [|cbn [snd]; eapply HInv_same; try exact I; reflexivity].
     destruct (negb (is_client s) && negb (z =? hcur s)); cbn [snd]; [|eapply HInv_same; try exact I; reflexivity].
     destruct (change_cid_host s) as [A [B [C [D [E F]]]]]. eapply HInv_same; try exact I; cbn; assumption.
   - (* LocalChange *) destruct (change_cid_host s) as [A [B [C [D [E F]]]]]. eapply HInv_same; try exact I; cbn; assumption.
-  - (* Send *) destruct (closed s); cbn [snd]; [assumption|]. unfold send. cbn [snd].
-    set (news := map h_seq (filter (fun h => negb (h_sent h)) (hosts s))).
-    assert (Fn : Forall (fun x => x < hseq s) news).
-    { apply Forall_forall. intros x Hx. unfold news in Hx. apply in_map_iff in Hx. destruct Hx as [h [E Hh]].
-      apply filter_In in Hh. destruct Hh as [Hh _]. destruct H3 as [_ B]. rewrite Forall_forall in B. apply B.
-      unfold hseqs. subst x. now apply in_map. }
-    constructor; cbn; try assumption.
-    + now rewrite zlen_map.
-    + apply hgood_map_sent; [reflexivity|assumption].
-    + now apply fold_max_lt.
-    + intros h Hin _. apply in_map_iff in Hin. destruct Hin as [h0 [E Hin]]. subst h. cbn.
-      apply in_or_app. destruct (h_sent h0) eqn:Es; [left; apply H5; auto|right].
-      unfold news. apply in_map. apply filter_In. split; [assumption|now rewrite Es].
-    + intros q Hq. apply in_or_app. left. now apply H6.
+  - (* Send *) destruct (closed s); cbn [snd]; [assumption|]. apply send_HInv; assumption.
   - (* RetireDelivery *) unfold retire_delivery. destruct acked; cbn [snd]; eapply HInv_same; try exact I; reflexivity.
   - (* NewCidDelivery *) unfold newcid_delivery. destruct acked; cbn [snd]; [assumption|].
-    constructor; cbn; try assumption; [now rewrite zlen_map| |].
-    + apply hgood_map_sent; [|assumption]. intros h. destruct (h_seq h =? q) eqn:E; cbn; lia.
+    assert (Hf : forall h, h_seq (if h_seq h =? q then mkH q false else h) = h_seq h)
+      by (intros h; destruct (h_seq h =? q) eqn:E; cbn; lia).
+    constructor; cbn [hosts hseq hsent rlimit issued retiredev set_host]; try assumption;
+      [now rewrite zlen_map| | |now rewrite hseqs_map].
+    + apply hgood_map_sent; [|assumption]. exact Hf.
     + intros h Hin Hs. apply in_map_iff in Hin. destruct Hin as [h0 [E Hin]].
       destruct (h_seq h0 =? q) eqn:Eq.
       * subst h. cbn in *. destruct Hs as [Hs|Hs]; [discriminate|]. replace q with (h_seq h0) by lia.
@@ -429,6 +624,20 @@ Proof.
   - exact R.
 Qed.
 
+(* a refused frame never loses a retirement: what was pending is written (now outstanding) or still pending *)
+Lemma send_PInv s b : PInv s -> PInv (snd (send s b)).
+Proof.
+  intros [[A [B C]] D R]. unfold send. destruct (write_news (hosts s) b) as [[hs' news] rest].
+  destruct rest as [b'|].
+  - pose proof (write_rets_split (pend s) b') as Sp. destruct (write_rets (pend s) b') as [rets pend']. cbn [fst snd] in *.
+    constructor; cbn; [|assumption|assumption].
+    split; [assumption|split; [assumption|]]. intros c Hc. destruct (C c Hc) as [E|[H|[H|[H|H]]]]; try tauto.
+    + rewrite Sp in H. apply in_app_or in H. destruct H as [H|H]; [|tauto].
+      right; right; right; left. apply in_or_app. now right.
+    + right; right; right; left. apply in_or_app. now left.
+  - cbn [snd]. constructor; cbn; [|assumption|assumption]. split; [assumption|split; [assumption|exact C]].
+Qed.
+
 Lemma step_PInv s o : PInv s -> legit s o -> PInv (snd (step s o)).
 Proof.
   intros P Lg. destruct o; cbn [step legit] in *; try tauto.
@@ -449,11 +658,7 @@ Proof.
         -- now apply PInv_ctx_none.
       * cbn [snd]. rewrite <- Ec. now apply PInv_ctx.
   - (* LocalChange *) cbn. now apply change_cid_PInv.
-  - (* Send *) destruct (closed s) eqn:Ec; cbn [snd]; [exact P|].
-    destruct P as [[A [B C]] D R]. unfold send. constructor; cbn; [|assumption|assumption].
-    split; [first [assumption|now rewrite Ec in A|intros _; apply A; assumption]|split; [assumption|]]. intros c Hc. destruct (C c Hc) as [E|[H|[H|[H|H]]]]; try tauto.
-    + right; right; right; left. apply in_or_app. now right.
-    + right; right; right; left. apply in_or_app. now left.
+  - (* Send *) destruct (closed s) eqn:Ec; cbn [snd]; [exact P|]. now apply send_PInv.
   - (* RetireDelivery *) cbn. destruct P as [[A [B C]] D R]. unfold retire_delivery.
     destruct acked; constructor; cbn; try assumption; (split; [assumption|split; [assumption|]]); intros c Hc;
       destruct (C c Hc) as [E|[H|[H|[H|H]]]]; try tauto.
@@ -478,10 +683,29 @@ Proof. intros R. induction R; [apply init_PInv|now apply step_PInv]. Qed.
 
 (* ---------------------------------------------------------------- consequences *)
 (* dcid_not_retired *)
-Lemma dcid_not_retired_l c l s : reach c l s -> closed s = None ->
-  rpt s <= cur s /\ Forall (fun q => rpt s <= q) (avail s) /\ rpt s <= fst (fst (fst (send s))).
+(* projections of send *)
+Lemma send_dcid s b : fst (fst (fst (send s b))) = cur s.
+Proof. unfold send. destruct (write_news _ _) as [[? ?] [?|]]; [destruct (write_rets _ _)|]; reflexivity. Qed.
+Lemma send_news s b : snd (fst (fst (send s b))) = wn_news (hosts s) b.
+Proof. unfold send, wn_news. destruct (write_news _ _) as [[? ?] [?|]]; [destruct (write_rets _ _)|]; reflexivity. Qed.
+Lemma send_hosts s b : hosts (snd (send s b)) = wn_hosts (hosts s) b.
+Proof. unfold send, wn_hosts. destruct (write_news _ _) as [[? ?] [?|]]; [destruct (write_rets _ _)|]; reflexivity. Qed.
+Lemma send_closed s b : closed (snd (send s b)) = closed s.
+Proof. unfold send. destruct (write_news _ _) as [[? ?] [?|]]; [destruct (write_rets _ _)|]; reflexivity. Qed.
+Lemma send_rets s b :
+  match wn_left (hosts s) b with
+  | None => snd (fst (send s b)) = [] /\ pend (snd (send s b)) = pend s /\ outs (snd (send s b)) = outs s
+  | Some b' => snd (fst (send s b)) = fst (write_rets (pend s) b') /\ pend (snd (send s b)) = snd (write_rets (pend s) b')
+               /\ outs (snd (send s b)) = outs s ++ fst (write_rets (pend s) b')
+  end.
 Proof.
-  intros R Ec. destruct (reach_PInv _ _ _ R) as [[A [B _]] _ _]. specialize (A Ec). cbn. auto.
+  unfold send, wn_left. destruct (write_news _ _) as [[? ?] [?|]]; cbn [snd]; [destruct (write_rets _ _)|]; cbn; auto.
+Qed.
+
+Lemma dcid_not_retired_l c l s b : reach c l s -> closed s = None ->
+  rpt s <= cur s /\ Forall (fun q => rpt s <= q) (avail s) /\ rpt s <= fst (fst (fst (send s b))).
+Proof.
+  intros R Ec. destruct (reach_PInv _ _ _ R) as [[A [B _]] _ _]. specialize (A Ec). rewrite send_dcid. auto.
 Qed.
 
 (* the retire_prior_to of an accepted frame is honoured at once *)
@@ -499,7 +723,7 @@ Proof.
       intros _. cbn [snd closed rpt set_peer]. split; [assumption|lia].
     - destruct (1 + Zlen _ >? _); [cbn; discriminate|]. destruct (Zlen _ >? _); [cbn; discriminate|].
       intros _. cbn [snd closed rpt set_peer]. split; [assumption|lia]. }
-  destruct Hc as [Hc Hr]. destruct (dcid_not_retired_l _ _ _ R' Hc) as [A _]. auto.
+  destruct Hc as [Hc Hr]. destruct (dcid_not_retired_l _ _ _ 0 R' Hc) as [A _]. auto.
 Qed.
 
 (* a frame that would leave no destination ID closes the connection instead of raising *)
@@ -557,12 +781,19 @@ Lemma issued_bounded_l c l s : 1 <= l -> reach c l s ->
   Zlen (hosts s) = Z.min REPLENISH_CAP l /\ Zlen (hosts s) <= l.
 Proof. intros Hl R. pose proof (hi_count _ _ (reach_HInv _ _ _ Hl R)). lia. Qed.
 
-Lemma unsent_are_announced s h : closed s = None -> In h (hosts s) -> h_sent h = false ->
-  In (h_seq h) (snd (fst (fst (send s)))) /\ Forall (fun h' => h_sent h' = true) (hosts (snd (send s))).
+Lemma unsent_nil_all_sent hs : unsent hs = [] -> Forall (fun h => h_sent h = true) hs.
 Proof.
-  intros _ Hin Hs. cbn. split.
-  - apply in_map. apply filter_In. split; [assumption|]. now rewrite Hs.
-  - apply Forall_forall. intros h' H'. apply in_map_iff in H'. destruct H' as [h0 [E _]]. now subst h'.
+  unfold unsent. induction hs as [|h t IH]; cbn [filter]; [constructor|].
+  destruct (h_sent h) eqn:E; cbn [negb map]; [|discriminate]. intros H. constructor; [assumption|now apply IH].
+Qed.
+
+Lemma unsent_are_announced s h b : closed s = None -> In h (hosts s) -> h_sent h = false ->
+  Zlen (unsent (hosts s)) <= b ->
+  In (h_seq h) (snd (fst (fst (send s b)))) /\ Forall (fun h' => h_sent h' = true) (hosts (snd (send s b))).
+Proof.
+  intros _ Hin Hs Hb. destruct (wn_enough _ _ Hb) as [_ [A B]]. rewrite send_news, send_hosts, A. split.
+  - unfold unsent. apply in_map. apply filter_In. split; [assumption|]. now rewrite Hs.
+  - now apply unsent_nil_all_sent.
 Qed.
 
 Lemma replenish_loop_seqs fuel : forall hs next target x,
@@ -605,9 +836,77 @@ Proof. intros R H. destruct (reach_PInv _ _ _ R) as [[_ [_ C]] _ Rc]. apply C. n
 Lemma lost_requeued s q : In q (pend (retire_delivery s q false)).
 Proof. cbn. apply in_or_app. right. now left. Qed.
 
-Lemma pending_all_written s : closed s = None ->
-  snd (fst (send s)) = pend s /\ pend (snd (send s)) = [] /\ forall q, In q (pend s) -> In q (outs (snd (send s))).
-Proof. intros _. cbn. repeat split. intros q H. apply in_or_app. now right. Qed.
+(* whatever the builder accepts: the pending list is split, in order, into the frames written (now outstanding)
+   and the retirements still pending -- a refused frame loses nothing *)
+Lemma refused_stays_pending s b :
+  pend s = snd (fst (send s b)) ++ pend (snd (send s b)) /\ outs (snd (send s b)) = outs s ++ snd (fst (send s b)).
+Proof.
+  pose proof (send_rets s b) as H. destruct (wn_left (hosts s) b) as [b'|].
+  - destruct H as [A [B C]]. rewrite A, B, C. split; [apply write_rets_split|reflexivity].
+  - destruct H as [A [B C]]. rewrite A, B, C. now rewrite app_nil_r.
+Qed.
+
+(* a budget that covers everything owed: every pending retirement is written *)
+Lemma pending_all_written s b : closed s = None -> Zlen (unsent (hosts s)) + Zlen (pend s) <= b ->
+  snd (fst (send s b)) = pend s /\ pend (snd (send s b)) = [] /\ forall q, In q (pend s) -> In q (outs (snd (send s b))).
+Proof.
+  intros _ Hb. pose proof (zlen_nonneg (pend s)) as Np.
+  assert (Hu : Zlen (unsent (hosts s)) <= b) by lia. destruct (wn_enough _ _ Hu) as [L _].
+  pose proof (send_rets s b) as H. rewrite L in H. destruct H as [A [B C]].
+  pose proof (write_rets_split (pend s) (b - Zlen (unsent (hosts s)))) as Sp.
+  pose proof (write_rets_len (pend s) (b - Zlen (unsent (hosts s)))) as Ln.
+  assert (E : snd (write_rets (pend s) (b - Zlen (unsent (hosts s)))) = []).
+  { apply zlen_zero_nil. apply (f_equal Zlen) in Sp. rewrite zlen_app in Sp. lia. }
+  rewrite E, app_nil_r in Sp. rewrite A, B, C, E, <- Sp. repeat split. intros q Hq. apply in_or_app. now right.
+Qed.
+
+(* whenever the builder still accepts a frame after the owed NEW_CONNECTION_ID frames, the OLDEST pending
+   retirement is written *)
+Lemma oldest_pending_written s b q t : closed s = None -> pend s = q :: t -> Zlen (unsent (hosts s)) < b ->
+  exists w, snd (fst (send s b)) = q :: w.
+Proof.
+  intros _ Hp Hb. assert (Hu : Zlen (unsent (hosts s)) <= b) by lia. destruct (wn_enough _ _ Hu) as [L _].
+  pose proof (send_rets s b) as H. rewrite L in H. destruct H as [A _]. rewrite A, Hp.
+  apply write_rets_head. lia.
+Qed.
+
+(* progress: the number of CID frames owed shrinks by exactly what the builder accepts *)
+Definition owed (s : st) : Z := Zlen (unsent (hosts s)) + Zlen (pend s).
+
+Lemma send_progress s b :
+  Zlen (snd (fst (fst (send s b)))) + Zlen (snd (fst (send s b))) = Z.min (Z.max 0 b) (owed s) /\
+  owed (snd (send s b)) = owed s - Z.min (Z.max 0 b) (owed s).
+Proof.
+  unfold owed. rewrite send_news, send_hosts.
+  pose proof (wn_left_spec (hosts s) b) as L. pose proof (wn_unsent_split (hosts s) b) as Sp.
+  pose proof (wn_news_len (hosts s) b) as Nl. pose proof (send_rets s b) as H.
+  apply (f_equal Zlen) in Sp. rewrite zlen_app in Sp.
+  pose proof (zlen_nonneg (pend s)). pose proof (zlen_nonneg (wn_news (hosts s) b)).
+  pose proof (zlen_nonneg (unsent (wn_hosts (hosts s) b))).
+  destruct (wn_left (hosts s) b) as [b'|].
+  - destruct L as [A B]. destruct H as [R1 [R2 R3]]. rewrite R1, R2, A in *. change (Zlen (@nil Z)) with 0 in *.
+    pose proof (write_rets_split (pend s) b') as Sr. pose proof (write_rets_len (pend s) b') as Lr.
+    apply (f_equal Zlen) in Sr. rewrite zlen_app in Sr.
+    pose proof (zlen_nonneg (snd (write_rets (pend s) b'))). lia.
+  - destruct L as [A B]. destruct H as [R1 [R2 R3]]. rewrite R1, R2. change (Zlen (@nil Z)) with 0.
+    assert (1 <= Zlen (unsent (wn_hosts (hosts s) b))).
+    { destruct (unsent (wn_hosts (hosts s) b)); [congruence|]. rewrite zlen_cons. pose proof (zlen_nonneg l). lia. }
+    lia.
+Qed.
+
+(* liveness in the fair phase: once every datagrams_to_send() call accepts at least one frame (window open),
+   as many calls as there are owed frames leave no NEW_CONNECTION_ID owed and no retirement pending *)
+Lemma fair_sends_drain bs : forall s, closed s = None -> Forall (fun b => 1 <= b) bs -> owed s <= Zlen bs ->
+  pend (run s (map Send bs)) = [] /\ unsent (hosts (run s (map Send bs))) = [].
+Proof.
+  induction bs as [|b bs IH]; intros s Ec F Ho; cbn [map run].
+  - change (Zlen (@nil Z)) with 0 in Ho. unfold owed in Ho.
+    pose proof (zlen_nonneg (pend s)). pose proof (zlen_nonneg (unsent (hosts s))).
+    split; apply zlen_zero_nil; lia.
+  - inversion F; subst. cbn [step]. rewrite Ec. cbn [snd]. apply IH; [now rewrite send_closed|assumption|].
+    destruct (send_progress s b) as [_ P]. rewrite P. rewrite zlen_cons in Ho. pose proof (zlen_nonneg bs).
+    unfold owed in *. pose proof (zlen_nonneg (pend s)). pose proof (zlen_nonneg (unsent (hosts s))). lia.
+Qed.
 
 (* ConnectionIdRetired only after ConnectionIdIssued *)
 Lemma retired_after_issued_l c l s q : 1 <= l -> reach c l s -> In q (retiredev s) -> In q (issued s).
@@ -627,24 +926,39 @@ Qed.
 Definition start (c : bool) (l : Z) : st := handshake_complete (init c) l.
 
 Definition w_exn : list op :=
-  [RecvPacket 0; RecvNewCid 2 0 8; RecvNewCid 1 0 8; PacketDone; LocalChange; LocalChange; Send;
+  [RecvPacket 0; RecvNewCid 2 0 8; RecvNewCid 1 0 8; PacketDone; LocalChange; LocalChange; Send 100;
    RecvPacket 0; RecvNewCid 2 2 8].
 Example former_f1 : closed (run (start true 8) w_exn) = Some E_PROTOCOL_VIOLATION.
 Proof. vm_compute. reflexivity. Qed.
 
 Definition w_late : list op :=
-  [RecvPacket 0; RecvNewCid 2 2 8; PacketDone; Send; RecvPacket 0; RecvNewCid 1 0 8; PacketDone].
+  [RecvPacket 0; RecvNewCid 2 2 8; PacketDone; Send 100; RecvPacket 0; RecvNewCid 1 0 8; PacketDone].
 Example former_f2 : let s := run (start true 8) w_late in closed s = None /\ cur s = 2 /\ pend s = [1] /\ outs s = [0].
 Proof. vm_compute. repeat split. Qed.
 
-Definition w_unsent : list op := [Send; RecvPacket 0; RecvRetire 1; RecvRetire 8].
+Definition w_unsent : list op := [Send 100; RecvPacket 0; RecvRetire 1; RecvRetire 8].
 Example former_f3 : let s := run (start false 8) w_unsent in
   closed s = Some E_PROTOCOL_VIOLATION /\ retiredev s = [1] /\ In 1 (issued s).
 Proof. vm_compute. repeat split. tauto. Qed.
 
 Example reach_nontrivial : exists s, reach true 8 s /\ cur s = 2 /\ rpt s = 2 /\ pend s = [] /\ outs s = [0].
 Proof.
-  exists (run (start true 8) [RecvPacket 0; RecvNewCid 2 2 8; PacketDone; Send]). split.
+  exists (run (start true 8) [RecvPacket 0; RecvNewCid 2 2 8; PacketDone; Send 100]). split.
   - apply reach_run; [reflexivity|constructor].
   - vm_compute. repeat split.
 Qed.
+
+(* the builder refuses the RETIRE_CONNECTION_ID frame twice (budget 7 = the seven owed NEW_CONNECTION_ID frames, then
+   budget 0): the retirement of ID 0 stays pending, and is written by the first call that accepts one more frame *)
+Example refused_frame_keeps_retirement :
+  let s := run (start true 8) [RecvPacket 0; RecvNewCid 2 2 8; PacketDone; Send 7; Send 0] in
+  reach true 8 s /\ cur s = 2 /\ pend s = [0] /\ outs s = [] /\ unsent (hosts s) = [] /\
+  pend (run s [Send 1]) = [] /\ outs (run s [Send 1]) = [0].
+Proof.
+  split; [apply reach_run; [reflexivity|constructor]|]. vm_compute. repeat split.
+Qed.
+
+(* a budget that stops inside the NEW_CONNECTION_ID loop: three IDs announced, four still flagged unsent *)
+Example partial_budget_news :
+  let s := run (start true 8) [Send 3] in unsent (hosts s) = [4; 5; 6; 7] /\ hsent s = 3 /\ issued s = [0; 1; 2; 3].
+Proof. vm_compute. repeat split. Qed.
